@@ -9,12 +9,15 @@ mkdir -p bin work evidence replays
 (cd tools/decgen && go build -o ../../bin/decgen .)
 (cd tools/encgen && go build -o ../../bin/encgen .)
 (cd tools/keygen && go build -o ../../bin/keygen .)
+(cd tools/loopgen && go build -o ../../bin/loopgen .)
 ./bin/factgen /repo > lean/Bmc/Gen/Facts.lean.tmp && mv lean/Bmc/Gen/Facts.lean.tmp lean/Bmc/Gen/Facts.lean
 ./bin/ssagen /repo > lean/Bmc/Gen/Prims.lean.tmp && mv lean/Bmc/Gen/Prims.lean.tmp lean/Bmc/Gen/Prims.lean
 ./bin/decgen /repo > lean/Bmc/Gen/Dec.lean.tmp && mv lean/Bmc/Gen/Dec.lean.tmp lean/Bmc/Gen/Dec.lean
 ./bin/decgen -orch /repo > lean/Bmc/Gen/Orch.lean.tmp && mv lean/Bmc/Gen/Orch.lean.tmp lean/Bmc/Gen/Orch.lean
 ./bin/encgen /repo > lean/Bmc/Gen/Enc.lean.tmp && mv lean/Bmc/Gen/Enc.lean.tmp lean/Bmc/Gen/Enc.lean
 ./bin/keygen /repo > lean/Bmc/Gen/Keys.lean.tmp && mv lean/Bmc/Gen/Keys.lean.tmp lean/Bmc/Gen/Keys.lean
+./bin/decgen -hs /repo > lean/Bmc/Gen/Hs.lean.tmp && mv lean/Bmc/Gen/Hs.lean.tmp lean/Bmc/Gen/Hs.lean
+./bin/loopgen /repo > lean/Bmc/Gen/Loops.lean.tmp && mv lean/Bmc/Gen/Loops.lean.tmp lean/Bmc/Gen/Loops.lean
 rm -f work/gen.hash
 (cd lean && lake build)
 cp /repo/go.sum harness/go.sum
